@@ -9,6 +9,7 @@ open Sonic.Model.WsWritePath Sonic.Model.WsBuf Driver.WsDecodeSpec Driver.WsWrit
 
 def toModelOp (keys : List (List UInt8)) (flen : Nat) : WsWriteSpec.SOp → Option WOp
   | .new _ => none
+  | .setmax _ => none
   | .plan l => some (.plan l)
   | .defer b => some (.defer b)
   | .write a oc p => some (.write a (UInt8.ofNat oc) p keys)
@@ -43,6 +44,9 @@ def tagsOf (op : WOp) (s s' : WS) (o : Sonic.Model.WsWritePath.Out) : List Strin
 
 def hookStep (ms : WS) (id : Nat) (sop : WsWriteSpec.SOp) (keys : List (List UInt8)) (flen : Nat) (seen : Seen) (i : Nat) (res : Driver.Result) :
     Option WS × Driver.Result :=
+  match sop with
+  | .setmax max => (some { ms with max := max }, { res with tags := Driver.addTag res.tags "max-changed-on-live-stream" })
+  | _ =>
   match toModelOp keys flen sop with
   | none => (some ms, res)
   | some op =>
